@@ -51,13 +51,16 @@ Proj(w)   == [items |-> w, sizes |-> <<Len(w[1]), Len(w[2])>>, mod64 |-> <<0, 0>
                @@ (IF Lifetime THEN [life |-> Life(w)] ELSE <<>>)
 Set1(i, s) == [v EXCEPT ![i] = s]
 
-Init == v = <<<<>>, <<>>>> /\ last = [a |-> "Init", arg |-> <<>>, cls |-> "", exp |-> Proj(<<<<>>, <<>>>>)]
+Init == v = <<<<>>, <<>>>> /\ last = [a |-> "Init", arg |-> <<>>, cls |-> "", byte_ok |-> TRUE, exp |-> Proj(<<<<>>, <<>>>>)]
 
 TypeOK == v \in Seq(Vals \cup {Default}) \X Seq(Vals \cup {Default})
 
 -------------------------------------------------------------------------------
 \* `cls`: the class of the arguments a finding is filed under (only Allocate distinguishes classes)
-StepC(a, arg, w, ret, cls) == v' = w /\ last' = [a |-> a, arg |-> arg, cls |-> cls, exp |-> ret @@ Proj(w)]
+\* `byte_ok`: would this step also exist for an element type of size 1 (where no request can exceed max_size())?  The
+\* generation instance is built once, for the wider alphabet; histories for byte-sized types are those whose steps all say TRUE
+StepB(a, arg, w, ret, cls, bo) == v' = w /\ last' = [a |-> a, arg |-> arg, cls |-> cls, byte_ok |-> bo, exp |-> ret @@ Proj(w)]
+StepC(a, arg, w, ret, cls) == StepB(a, arg, w, ret, cls, TRUE)
 Step(a, arg, w, ret) == StepC(a, arg, w, ret, "")
 Void == [ret |-> "void"]
 
@@ -88,6 +91,10 @@ Assign(i, n, x) == n <= MaxLen /\ Step("Assign", [i |-> i, n |-> n, x |-> x], Se
 AssignFrom(i)   == Step("AssignFrom", [i |-> i], Set1(i, v[Other(i)]), Void)
 \* { AlignedVector<T> tmp(v_other); v_i.swap(tmp); }  (copy construction of a whole vector)
 CopyCtor(i)     == Step("CopyCtor", [i |-> i], Set1(i, v[Other(i)]), Void)
+\* v_i = std::move(v_other); v_other.clear();   (the moved-from vector is valid but unspecified until cleared)
+MoveAssign(i)   == Step("MoveAssign", [i |-> i], [k \in 1..2 |-> IF k = i THEN v[Other(i)] ELSE <<>>], Void)
+\* v_i = v_i
+SelfAssign(i)   == Step("SelfAssign", [i |-> i], v, Void)
 \* v1.swap(v2)
 Swap            == Step("Swap", <<>>, <<v[2], v[1]>>, Void)
 Clear(i)        == Step("Clear", [i |-> i], Set1(i, <<>>), Void)
@@ -104,27 +111,54 @@ InsertMid(i, x) ==
        Step("InsertMid", [i |-> i, x |-> x],
             Set1(i, SubSeq(v[i], 1, pos) \o <<x>> \o SubSeq(v[i], pos + 1, Len(v[i]))), Void)
 
+\* insert(begin(), back()): the argument aliases an element that the insertion shifts (or a reallocation moves)
+InsertOwn(i) ==
+  /\ Len(v[i]) \in 1..(MaxLen - 1)
+  /\ Step("InsertOwn", [i |-> i], Set1(i, <<v[i][Len(v[i])]>> \o v[i]), Void)
+\* resize(n, v[0]): the fill value aliases an element
+ResizeValOwn(i, n) ==
+  /\ Len(v[i]) >= 1 /\ n <= MaxLen
+  /\ Step("ResizeValOwn", [i |-> i, n |-> n],
+          Set1(i, IF n <= Len(v[i]) THEN SubSeq(v[i], 1, n) ELSE v[i] \o Rep(n - Len(v[i]), v[i][1])), Void)
+
+\* An element copy threw inside a call that promises "no effects" in that case (push_back, reserve, shrink_to_fit,
+\* copy construction of a temporary): nothing changes, and (Lifetime) the accounting is balanced again.  Whether a
+\* given call copies enough elements to reach the armed copy is the implementation's business, so this is an
+\* alternative outcome of those calls, used by the trace specification only.
+StrongOps == {"PushBack", "PushBackRv", "PushBackOwn", "Reserve", "ShrinkToFit", "CopyCtor"}
+Failed(a, arg) == a \in StrongOps /\ StepC(a, arg, v, [ret |-> "threw"], "copy-throws")
+
 \* aligned_allocator<T>().allocate(n) with a symbolic n; a successful request is filled and deallocated again.
 \*   beyond max_size()           : must throw std::length_error                       (the clause of the property)
 \*   small positive              : memory, 64-byte aligned
 \*   anything else (0, or huge but within max_size()): not length_error; null / memory / bad_alloc are all fine
-Allocate(rel, d) ==
+\* how: "plain" allocate(n); "hint" the allocate(n, hint) overload; "rebind" through rebind<T>::other of another
+\* allocator - the three must agree
+AllocHows == {"plain", "hint", "rebind"}
+Allocate(how, rel, d) ==
   /\ Representable(ByteSized, rel, d)
-  /\ StepC("Allocate", [rel |-> rel, d |-> d], v,
+  /\ StepB("Allocate", [how |-> how, rel |-> rel, d |-> d], v,
            IF MustThrow(rel, d) THEN [ret |-> "length_error", len_err |-> TRUE]
            ELSE IF rel = "abs" /\ d > 0 THEN [ret |-> "ok", amod64 |-> 0, len_err |-> FALSE]
            ELSE [len_err |-> FALSE],
-           IF MustThrow(rel, d) THEN "n>max_size" ELSE IF rel = "abs" /\ d > 0 THEN "n=small" ELSE IF rel = "abs" THEN "n=0" ELSE "n<=max_size")
+           (IF how = "plain" THEN "" ELSE how \o ",") \o
+             (IF MustThrow(rel, d) THEN "n>max_size" ELSE IF rel = "abs" /\ d > 0 THEN "n=small" ELSE IF rel = "abs" THEN "n=0" ELSE "n<=max_size"),
+           Representable(TRUE, rel, d))
 
 Next ==
   \/ \E i \in 1..2, x \in Vals : PushBack(i, x) \/ PushBackRv(i, x) \/ InsertMid(i, x)
   \/ \E i \in 1..2 : PopBack(i) \/ ShrinkToFit(i) \/ AssignFrom(i) \/ Clear(i) \/ CopyCtor(i) \/ PushBackOwn(i)
+                      \/ MoveAssign(i) \/ SelfAssign(i) \/ InsertOwn(i)
+  \/ \E i \in 1..2, n \in ResizeNs : ResizeValOwn(i, n)
   \/ \E i \in 1..2, n \in ResizeNs : Resize(i, n)
   \/ \E i \in 1..2, n \in ResizeNs, x \in Vals : ResizeVal(i, n, x) \/ Assign(i, n, x)
   \/ \E i \in 1..2, n \in ReserveNs : Reserve(i, n)
   \/ Swap
   \/ \E i \in 1..2, pos \in 0..MaxLen, x \in Vals : Insert(i, pos, x)
-  \/ \E d \in AllocDs : (d >= 0 /\ Allocate("abs", d)) \/ Allocate("max", d) \/ (d > 0 /\ Allocate("ovf", d))
+  \* (the overload / rebind flavours do not depend on the vectors: explored from the empty state only)
+  \/ \E d \in AllocDs, how \in AllocHows :
+        /\ how = "plain" \/ v = <<<<>>, <<>>>>
+        /\ (d >= 0 /\ Allocate(how, "abs", d)) \/ Allocate(how, "max", d) \/ (d > 0 /\ Allocate(how, "ovf", d))
 
 Spec == Init /\ [][Next]_vars
 
@@ -137,12 +171,14 @@ Min(a, b) == IF a < b THEN a ELSE b
 Target    == IF last'.a \in {"Swap", "Allocate", "Init"} THEN 0 ELSE last'.arg.i
 \* operations that only append / truncate / move storage keep the common prefix of the vector they act on
 KeepsPrefix ==
-  [][last'.a \in {"PushBack", "PushBackRv", "PushBackOwn", "PopBack", "Resize", "ResizeVal", "Reserve", "ShrinkToFit"} =>
+  [][last'.a \in {"PushBack", "PushBackRv", "PushBackOwn", "PopBack", "ResizeValOwn", "SelfAssign", "Resize", "ResizeVal", "Reserve", "ShrinkToFit"} =>
        \A k \in 1..Min(Len(v[Target]), Len(v'[Target])) : v'[Target][k] = v[Target][k]]_vars
 \* storage-only operations change nothing
-StorageOnly == [][last'.a \in {"Reserve", "ShrinkToFit", "Allocate"} => v' = v]_vars
+StorageOnly == [][last'.a \in {"Reserve", "ShrinkToFit", "Allocate", "SelfAssign"} => v' = v]_vars
 \* an operation on one vector never changes the other one
-OtherUntouched == [][Target # 0 => v'[Other(Target)] = v[Other(Target)]]_vars
+OtherUntouched == [][Target # 0 /\ last'.a # "MoveAssign" => v'[Other(Target)] = v[Other(Target)]]_vars
+\* a move hands the elements over: nothing is lost, nothing is duplicated
+MoveHandsOver  == [][last'.a = "MoveAssign" => v'[Target] = v[Other(Target)] /\ v'[Other(Target)] = <<>>]_vars
 \* swap exchanges, twice is the identity
 SwapExchanges == [][last'.a = "Swap" => v'[1] = v[2] /\ v'[2] = v[1]]_vars
 \* insert keeps everything, shifted
